@@ -63,10 +63,18 @@ pub struct Case {
     pub files: Vec<FileSpec>,
     pub root_absolute: bool,
     pub fault: Option<FileFault>,
+    /// the process works inside the script's directory and names the root by its bare file name
+    #[serde(default)]
+    pub root_bare: bool,
+    /// after the first round one file that is included by a non-root file is rewritten (every other file stays
+    /// as it is on disk) and the tree is parsed again in the same process
+    #[serde(default)]
+    pub edit_nested: bool,
 }
 
 const ROOT: &str = "run";
-const PATHS: [&str; 7] = ["run/main.ds", "run/a/x.ds", "run/a/b/y.ds", "run/lib z/w.ds", "run/a/b/c/deep.ds", "run/q.ds", "run/a/n\u{e9}.ds"];
+// (two files carry the root's own base name in other directories)
+const PATHS: [&str; 9] = ["run/main.ds", "run/a/x.ds", "run/a/b/y.ds", "run/lib z/w.ds", "run/a/b/c/deep.ds", "run/q.ds", "run/a/n\u{e9}.ds", "run/a/main.ds", "run/lib z/main.ds"];
 
 fn abs_base(env: &WorkerEnv) -> PathBuf {
     if env.chrooted { PathBuf::from("/") } else { env.jail_root.clone() }
@@ -257,6 +265,22 @@ fn meta_of(e: &ScriptError) -> Option<(Option<usize>, Option<String>)> {
     }
 }
 
+fn check_provenance(case: &Case, instructions: &[Instruction], tags: &[Tag], canon_files: &[String], round: &str) -> Option<Verdict> {
+    if instructions.len() != tags.len() {
+        return Some(Verdict::Fail { class: "instruction-count".to_string(), detail: format!("{}parse_file gave {} instructions, the flattening has {}", round, instructions.len(), tags.len()) });
+    }
+    for (i, (ins, tag)) in instructions.iter().zip(tags.iter()).enumerate() {
+        let src = ins.meta_info.source.clone().map(|s| canon(&s));
+        if ins.meta_info.line != Some(tag.line) || src.as_deref() != Some(canon_files[tag.file].as_str()) {
+            return Some(Verdict::Fail {
+                class: "provenance".to_string(),
+                detail: format!("{}instruction #{} is tagged line {:?} of {:?}; it is line {} of {}", round, i, ins.meta_info.line, ins.meta_info.source, tag.line, case.files[tag.file].path),
+            });
+        }
+    }
+    None
+}
+
 fn run_case(case: &Case, env: &WorkerEnv) -> Verdict {
     let base = abs_base(env);
     let _ = std::fs::remove_dir_all(ROOT);
@@ -283,7 +307,18 @@ fn run_case(case: &Case, env: &WorkerEnv) -> Verdict {
             }
         }
     }
-    let root_arg = if case.root_absolute { base.join(&case.files[0].path).to_string_lossy().to_string() } else { case.files[0].path.clone() };
+    let canon_files: Vec<String> = case.files.iter().map(|f| canon(&f.path)).collect();
+    let bare = case.root_bare && case.fault.is_none() && first_malformed(case, 0, 0).is_none();
+    let root_arg = if bare {
+        // work inside the script's directory and name it by its bare file name
+        let _ = std::env::set_current_dir(ROOT);
+        sim::with_core(|c| c.probe("root-by-bare-file-name"));
+        "main.ds".to_string()
+    } else if case.root_absolute {
+        base.join(&case.files[0].path).to_string_lossy().to_string()
+    } else {
+        case.files[0].path.clone()
+    };
     let fault_file = match &case.fault {
         Some(FileFault::Missing(k)) | Some(FileFault::IsDirectory(k)) | Some(FileFault::InvalidUtf8(k)) => Some(*k),
         None => None,
@@ -329,18 +364,8 @@ fn run_case(case: &Case, env: &WorkerEnv) -> Verdict {
         Ok(i) => i,
         Err(e) => return Verdict::Fail { class: "parse-failed".to_string(), detail: format!("a well-formed tree failed to parse: {}", e) },
     };
-    if instructions.len() != tags.len() {
-        return Verdict::Fail { class: "instruction-count".to_string(), detail: format!("parse_file gave {} instructions, the flattening has {}", instructions.len(), tags.len()) };
-    }
-    let canon_files: Vec<String> = case.files.iter().map(|f| canon(&f.path)).collect();
-    for (i, (ins, tag)) in instructions.iter().zip(tags.iter()).enumerate() {
-        let src = ins.meta_info.source.clone().map(|s| canon(&s));
-        if ins.meta_info.line != Some(tag.line) || src.as_deref() != Some(canon_files[tag.file].as_str()) {
-            return Verdict::Fail {
-                class: "provenance".to_string(),
-                detail: format!("instruction #{} is tagged line {:?} of {:?}; it is line {} of {}", i, ins.meta_info.line, ins.meta_info.source, tag.line, case.files[tag.file].path),
-            };
-        }
+    if let Some(v) = check_provenance(case, &instructions, &tags, &canon_files, "") {
+        return v;
     }
     // the pasted text must parse to the same instruction kinds at the same indexes
     let pasted_ins = match parser::parse_text(&pasted) {
@@ -405,6 +430,40 @@ fn run_case(case: &Case, env: &WorkerEnv) -> Verdict {
     let strip = |v: &Vec<Vec<String>>| -> Vec<Vec<String>> { v.iter().map(|e| if e.first().map(|x| x == "ERR").unwrap_or(false) { vec![e[0].clone(), e.get(1).cloned().unwrap_or_default()] } else { e.clone() }).collect() };
     if strip(&e1) != strip(&e2) {
         return Verdict::Fail { class: "trace-divergence".to_string(), detail: format!("tree run emitted {:?}, pasted run {:?}", strip(&e1), strip(&e2)) };
+    }
+    // ---- second round: one nested include is rewritten, everything else stays as it is on disk
+    if case.edit_nested {
+        let nested: Option<usize> = (1..case.files.len()).flat_map(|i| case.files[i].lines.iter().filter_map(|l| if let Line::Include(refs) = l { refs.first().map(|r| r.file) } else { None }).collect::<Vec<_>>()).next();
+        if let Some(b) = nested {
+            let mut case2 = case.clone();
+            case2.files[b].lines.insert(0, Line::Emit("edited".to_string()));
+            let on_disk = if bare { case.files[b].path.strip_prefix("run/").unwrap_or(&case.files[b].path).to_string() } else { case.files[b].path.clone() };
+            let _ = std::fs::write(&on_disk, file_text(&case2, b, &base));
+            sim::with_core(|c| {
+                c.probe("nested-include-edited-then-reparsed");
+                c.note(&format!("--- {} rewritten, tree parsed again", case.files[b].path));
+            });
+            let mut tags2 = vec![];
+            let mut pasted2 = String::new();
+            inline(&case2, 0, &base, &mut tags2, &mut pasted2, 0);
+            match parser::parse_file(&root_arg) {
+                Err(e) => return Verdict::Fail { class: "parse-failed".to_string(), detail: format!("after editing a nested include the tree failed to parse: {}", e) },
+                Ok(ins2) => {
+                    if let Some(v) = check_provenance(&case2, &ins2, &tags2, &canon_files, "after editing a nested include: ") {
+                        return v;
+                    }
+                    if let Some(idx) = tags2.iter().position(|t| t.file == b) {
+                        let ok = match &ins2[idx].instruction_type {
+                            InstructionType::Script(si) => si.command.as_deref() == Some("emit") && si.arguments.as_ref().map(|a| a == &vec!["edited".to_string()]).unwrap_or(false),
+                            _ => false,
+                        };
+                        if !ok {
+                            return Verdict::Fail { class: "stale-include".to_string(), detail: format!("{} was rewritten; parsing the tree again still yields its old first instruction {:?}", case.files[b].path, ins2[idx].instruction_type) };
+                        }
+                    }
+                }
+            }
+        }
     }
     match (r1, r2) {
         (Ok(c1), Ok(c2)) => {
@@ -531,7 +590,8 @@ fn gen_case(rng: &mut Rng) -> Case {
         }
         _ => None,
     };
-    Case { entropy: rng.next_u64(), files, root_absolute: rng.chance(1, 4), fault }
+    let root_absolute = rng.chance(1, 4);
+    Case { entropy: rng.next_u64(), files, root_absolute, fault, root_bare: !root_absolute && rng.chance(1, 5), edit_nested: rng.chance(1, 3) }
 }
 
 /// is file k reachable from the root through include directives?
@@ -561,7 +621,7 @@ impl Prop for C14 {
             assumptions: &["files are compared after canonicalisation, not by spelling", "include cycles are out of scope (C07's include-cycle probe)"],
             needs_jail: true,
             needs_duck: false,
-            expected_probes: &["planted-error-in-included-file", "unreadable-include-reported", "malformed-line-reported", "same-file-twice", "dotdot-relative-path", "absolute-include-path", "nested-include-not-at-line-1"],
+            expected_probes: &["planted-error-in-included-file", "unreadable-include-reported", "malformed-line-reported", "same-file-twice", "dotdot-relative-path", "absolute-include-path", "nested-include-not-at-line-1", "root-by-bare-file-name", "nested-include-edited-then-reparsed"],
         }
     }
     fn runs(&self, tier: &str) -> u64 {
@@ -610,6 +670,12 @@ impl Prop for C14 {
         }
         let fault_config = case.fault.is_some() || case.files.iter().any(|f| f.lines.iter().any(|l| matches!(l, Line::Malformed(_))));
         let res = std::panic::catch_unwind(std::panic::AssertUnwindSafe(|| run_case(&case, env)));
+        // (a run may have moved into the script's directory)
+        if env.chrooted {
+            let _ = std::env::set_current_dir("/");
+        } else {
+            let _ = std::env::set_current_dir(&env.jail_root);
+        }
         let _ = std::fs::remove_dir_all(ROOT);
         let verdict = match res {
             Ok(v) => v,
